@@ -336,6 +336,7 @@ func C18(c *Ctx) {
 	c.Note("exclusion of overlapping [start, commit] intervals across regions; idempotence of re-applied raft log entries as a history property; timestamps supplied by clients being unique")
 	commitAllOrNothing(c, "K1.commit-refused-before-any-write")
 	committedLockLeftover(c, "K1.interrupted-commit-is-committed")
+	rollbackKeepsForeignCommit(c, "K1.rollback-keeps-foreign-commit")
 	const r1 = "K8.rollback-record-excluded"
 	c.Rule(r1, "every use of Reader.GetWriteByStartTs (Commit, commitKey, rollbackKey, CheckTxnStatus) compares the found write's Kind with Mutation_Rollback before treating it as evidence of a commit (before any path that reports success / a commit version)")
 	ops := opConsts(c)
@@ -1529,5 +1530,46 @@ func committedLockLeftover(c *Ctx, rule string) {
 				c.Decide(ok, rule, key(fn, fmt.Sprintf("rollbackKey[%d]<-GetWriteByStartTs", i)), rb.Pos(), n, "the write column is consulted before a lock decides the transaction's fate", "CheckTxnStatus rolls back on an expired lock without looking at the write column: a lock left by a commit interrupted between its two writes makes it answer TTLExpireRollback (commit_version 0) for a committed transaction, and the caller then rolls back the secondaries")
 			}
 		}
+	}
+}
+
+// rollbackKeepsForeignCommit (C18): the rollback marker is written at (key, startTs) in the write
+// column.  A commit record of another transaction whose commit version equals that start version
+// sits at the same internal key, so the marker write must be preceded by a read of the write
+// column at exactly startTs whose outcome can keep the write from happening.
+func rollbackKeepsForeignCommit(c *Ctx, rule string) {
+	c.Rule(rule, "percolator.rollbackKey writes its rollback marker (SetVersionedEntry(CFWrite, key, startTs)) only after reading the write column at version startTs (DB.GetVersionedEntry(CFWrite, key, startTs)), and a path from that read returns without writing (a foreign commit record at that version is kept)")
+	fn := c.Fn("percolator", "rollbackKey")
+	if fn == nil || len(fn.Params) == 0 {
+		return
+	}
+	startTs := fn.Params[len(fn.Params)-1]
+	cfWrite := cfValue(c, "CFWrite")
+	var marker, probes []ssa.CallInstruction
+	for _, w := range Calls(fn, false, Named("NoKV.(*DB).SetVersionedEntry")) {
+		if cf, ok := ConstInt(w.Common().Args[1]); ok && cf == cfWrite && w.Common().Args[3] == ssa.Value(startTs) {
+			marker = append(marker, w)
+		}
+	}
+	for _, g := range Calls(fn, false, Named("NoKV.(*DB).GetVersionedEntry")) {
+		if cf, ok := ConstInt(g.Common().Args[1]); ok && cf == cfWrite && g.Common().Args[3] == ssa.Value(startTs) {
+			probes = append(probes, g)
+		}
+	}
+	c.Decide(len(marker) >= 1, rule, key(fn, "has:rollback-marker-write"), fn.Pos(), len(marker)+1, "marker write found", "cannot find the rollback marker write of rollbackKey")
+	for i, m := range marker {
+		pre, n := MustPrecede(fn, m.(ssa.Instruction), instrs(probes))
+		skippable := false
+		for _, p := range probes {
+			for _, r := range Returns(fn) {
+				if IsNilConst(RetVal(r, 0)) {
+					if reach, _ := CutReach(fn, p.(ssa.Instruction), r, []ssa.Instruction{m.(ssa.Instruction)}, nil); reach {
+						skippable = true
+					}
+				}
+			}
+		}
+		c.Decide(pre && len(probes) > 0 && skippable, rule, key(fn, fmt.Sprintf("marker[%d]<-probe(CFWrite@startTs)", i+1)), m.Pos(), n+1, "the slot the marker goes to is inspected first, and a foreign commit record there is kept",
+			"rollbackKey writes the rollback marker at (key, startTs) without looking at what is stored at that version: a commit record of another transaction whose commit version equals this start version is overwritten – a committed transaction vanishes (its value reads as not found, CheckTxnStatus no longer reports its commit)")
 	}
 }
